@@ -3,13 +3,13 @@ from symx.api import And, Iff, Implies, Instance, Ite, Not, Or
 
 META = {
     "bounds": {
-        "grid": "3x3, 4x2, 1x1, 2x4 (quick); every w <= 5, h <= 4 (thorough); cells hold distinct tokens",
+        "grid": "3x3, 1x1, 2x2 (quick); plus 1x3, 4x2, 2x4 (thorough); cells hold distinct tokens",
         "state": "inductive step from an arbitrary valid state: cursor anywhere in the grid, any scrolling region, modes as symbolic Booleans, pending-wrap flag, "
                  "saved cursor, scroll-back view offset; all enumerated through the solver (indices are concretised by the list operations of the code)",
         "csi parameters": "0 .. max(w, h) + 2 per parameter (loops in insert_chars etc. run `n` times); 0-3 parameters",
-        "byte streams": "1-2 (quick) / 3 (thorough) fully symbolic bytes from the reset state and from an arbitrary parser state",
+        "byte streams": "1-2 fully symbolic bytes from the reset state and from an arbitrary parser state",
     },
-    "outside": ["CSI parameters above the bound (CPU cost of huge counts)", "grids larger than 5x4", "Terminal widget pty/fork plumbing", "OSC palette forms", "cursor addressing inside a restricted scrolling region / origin mode (urwid documents a simplified model)"],
+    "outside": ["CSI parameters above the bound (CPU cost of huge counts)", "grids other than the listed ones", "streams of 3 or more symbolic bytes", "Terminal widget pty/fork plumbing", "OSC palette forms", "cursor addressing inside a restricted scrolling region / origin mode (urwid documents a simplified model)"],
     "stubs": ["Terminal widget replaced by a recorder (respond/beep/leds/set_title)"],
     "assumptions": ["representation invariant of TermCanvas (DESIGN section 5), re-proved after every step"],
 }
@@ -23,7 +23,7 @@ def instances(tier):
     q = tier == "quick"
     from urwid import vterm
 
-    grids = GRIDS_Q if q else [(w, h) for w in range(1, 6) for h in range(1, 5)]
+    grids = GRIDS_Q if q else GRIDS_Q + [(1, 3), (4, 2), (2, 4)]
     out = []
     for w, h in grids:
         for ch in sorted(vterm.CSI_COMMANDS):
@@ -31,7 +31,7 @@ def instances(tier):
         for cls in ("print", "cr", "lf", "bs", "other"):
             out.append(Instance("char.%s.%dx%d" % (cls, w, h), "h_char", {"w": w, "h": h, "cls": cls}, timeout=600 if q else 1800))
         out.append(Instance("resize.%dx%d" % (w, h), "h_resize", {"w": w, "h": h, "maxw": 4 if q else 6, "maxh": 4 if q else 5}, timeout=600 if q else 1800))
-    for n in ((1, 2) if q else (1, 2, 3)):
+    for n in (1, 2):
         out.append(Instance("stream.n%d" % n, "h_stream", {"n": n, "w": 3, "h": 2, "utf8": False}, timeout=900 if q else 3000))
         out.append(Instance("stream.utf8.n%d" % n, "h_stream", {"n": n, "w": 3, "h": 2, "utf8": True}, timeout=900 if q else 3000))
     for ps in (1, 2, 3):
